@@ -540,8 +540,9 @@ class DimensionValue(Value):
         ok, seq, store, unused = ProdParser().parse(cssText,
                                                     'DimensionValue',
                                                     prods)
-        self.wellformed = ok
-        if ok:
+        if not ok:
+            self.wellformed = ok
+        else:
             item = seq[0]
 
             sign, v, d = self.__reUnNumDim.findall(
@@ -564,6 +565,8 @@ class DimensionValue(Value):
             if d:
                 dim = d
 
+            # commit only after the last check
+            self.wellformed = ok
             self._sign = sign
             self._value = val
             self._dimension = dim
